@@ -67,10 +67,24 @@ func c35Conn(h *server.Handler, id uint32, flags uint16) *mysql.Conn {
 	return c
 }
 
-// Finding 1 (C35-W1): with SERVER_STATUS_CURSOR_EXISTS set on the connection, resultForDefaultIter
-// replaces `callback` by a closure that calls `callback` — i.e. itself. The first full batch of 128
-// rows recurses until the goroutine stack is exhausted, which kills the whole server process (a
-// stack overflow is fatal, not a recoverable panic). Run in a child process so that the parent can
+// Findings 1 and 2 (C35-W1, C35-B1): with SERVER_STATUS_CURSOR_EXISTS set on the connection,
+// resultForDefaultIter / resultForValueRowIter replace `callback` by a closure that calls `callback`
+// — i.e. itself (W1). The first full batch of 128 rows recurses until the goroutine stack is
+// exhausted, which kills the whole server process (a stack overflow is fatal, not a recoverable
+// panic). The child process below therefore dies on the unmodified tree:
+//
+//	fatal error: stack overflow
+//
+// The same wrapper is also wrong in a second, independent way (B1): it resets the shared,
+// unsynchronised *sql.ByteBuffer from the delivering goroutine while the batching goroutine keeps
+// encoding the rows of the next batches into it. That cannot execute while W1 kills the process
+// first; with only the recursion removed (fixes/C35-wrapper-naive-unrecurse.patch.not-applied:
+// `spool := callback` … `return spool(r, more)`) this very test fails 3 runs out of 3 with
+//
+//	row 512 is "592"        (rows of queued batches overwritten by later rows)
+//
+// With fixes/C35-drop-buffer-reset-wrapper.patch (the wrapper removed; doQuery resets the buffer
+// once the whole result has been sent) it passes. Run in a child process so that the parent can
 // report a normal test failure.
 func TestC35CursorCallbackWrapperTerminates(t *testing.T) {
 	if os.Getenv("C35_CHILD") == "1" {
@@ -105,7 +119,7 @@ func TestC35CursorCallbackWrapperTerminates(t *testing.T) {
 		if len(lines) > 14 {
 			lines = lines[:14]
 		}
-		t.Fatalf("a 300-row SELECT on a connection with SERVER_STATUS_CURSOR_EXISTS killed the server process: %v\n%s", err, strings.Join(lines, "\n"))
+		t.Fatalf("a 5000-row SELECT on a connection with SERVER_STATUS_CURSOR_EXISTS did not deliver the engine's rows (or killed the server process): %v\n%s", err, strings.Join(lines, "\n"))
 	}
 }
 
@@ -119,7 +133,7 @@ func (c35FailingProvider) Database(*sql.Context, string) (sql.Database, error) {
 	return nil, errC35Commit
 }
 
-// Finding 2 (C35-E1): resultForMax1RowIter closes the iterator with `defer iter.Close(ctx)` and drops
+// Finding 3 (C35-E1): resultForMax1RowIter closes the iterator with `defer iter.Close(ctx)` and drops
 // the error. Closing the top iterator is what commits the autocommit transaction, so a failed commit
 // is reported by the in-process engine (RowIter.Close returns it) and by the other four resultFor*
 // siblings, but a client running an at-most-one-row statement (primary-key point lookup) is told OK.
